@@ -436,7 +436,7 @@ func mixProfile(profile string, g *gen) (mixW, bool) {
 	case "checkpoint": // C38
 		return mixW{write: 55, ingest: 4, excise: 2, flush: 5, compact: 4, checkpoint: 12, scan: 1, rangeKeys: g.r.IntN(2) == 0}, true
 	case "scaninternal": // C45
-		return mixW{write: 55, ingest: 5, excise: 2, flush: 7, compact: 5, scanInternal: 12, scan: 1, rangeKeys: g.r.IntN(2) == 0}, true
+		return mixW{write: 55, ingest: 5, excise: 2, flush: 7, compact: 5, scanInternal: 14, scan: 1, snap: 8, rangeKeys: g.r.IntN(2) == 0}, true
 	case "maint": // C14
 		return mixW{write: 40, ingest: 4, ingestExcise: 2, excise: 3, flush: 10, compact: 10, snap: 14, efos: 2, iter: 12, ratchet: 2, wait: 3, scan: 2, rangeKeys: g.r.IntN(2) == 0, longLived: true, iterOpsPerStep: 3}, true
 	case "iofault": // C43
